@@ -1167,6 +1167,7 @@ MUTANTS = [
     {'name': 'index-default-named-constant-zero', 'edits': [{'file': 'naunet/reactions/reaction.py', 'old': 'class Reaction', 'new': 'NO_INDEX = 0\n\n\nclass Reaction'}, {'file': 'naunet/reactions/reaction.py', 'old': '        idxfromfile: int = -1,\n', 'new': '        idxfromfile: int = NO_INDEX,\n'}], 'rules': ['R2']},
     {'name': 'render-keys-by-loop-without-int', 'file': RENDER, 'old': '        rate_modifier = {int(key): value for key, value in rate_modifier.items()}\n', 'new': '        converted = {}\n        for key, value in rate_modifier.items():\n            converted[key] = value\n        rate_modifier = converted\n', 'rules': ['R2']},
     {'name': 'reindex-helper-from-1', 'edits': [{'file': NETWORK, 'old': '        for idx, reac in enumerate(self.reaction_list):\n            reac.idxfromfile = idx\n', 'new': '        self._number_reactions()\n\n    def _number_reactions(self) -> None:\n        for idx, reac in enumerate(self.reaction_list):\n            reac.idxfromfile = idx + 1\n'}], 'rules': ['R3']},
+    {'name': 'ode-modifier-by-key-row-without-kwargs', 'file': T, 'old': '        for sname, expr in ode_modifier.items():\n            spec = Species(sname, **species_kwargs)\n            sidx = species.index(spec)\n            for fact, dep in zip(expr["factors"], expr["reactants"]):\n', 'new': '        for sname in ode_modifier:\n            expr = ode_modifier[sname]\n            spec = Species(sname)\n            sidx = species.index(spec)\n            for fact, dep in zip(expr["factors"], expr["reactants"]):\n', 'rules': ['R4']},
 ]
 BENIGN = [
     # (a break out of the loop over the modifier keys skips only the remaining keys for this reaction: keys are distinct)
@@ -1213,6 +1214,8 @@ BENIGN = [
     {'name': 'reindex-through-helper', 'edits': [{'file': NETWORK, 'old': '        for idx, reac in enumerate(self.reaction_list):\n            reac.idxfromfile = idx\n', 'new': '        self._number_reactions()\n\n    def _number_reactions(self) -> None:\n        for idx, reac in enumerate(self.reaction_list):\n            reac.idxfromfile = idx\n'}]},
     {'name': 'index-default-named-constant', 'edits': [{'file': 'naunet/reactions/reaction.py', 'old': 'class Reaction', 'new': 'NO_INDEX = -1\n\n\nclass Reaction'}, {'file': 'naunet/reactions/reaction.py', 'old': '        idxfromfile: int = -1,\n', 'new': '        idxfromfile: int = NO_INDEX,\n'}]},
     {'name': 'config-writer-str-keys-by-loop', 'file': CONF, 'old': '        chemistry["rate_modifier"] = {\n            str(key): value for key, value in self._ratemodifier.items()\n        }\n', 'new': '        ratemod = {}\n        for key, value in self._ratemodifier.items():\n            ratemod[str(key)] = value\n        chemistry["rate_modifier"] = ratemod\n'},
+    {'name': 'ode-modifier-walked-by-key', 'file': T, 'old': '        for sname, expr in ode_modifier.items():\n            spec = Species(sname, **species_kwargs)\n            sidx = species.index(spec)\n            for fact, dep in zip(expr["factors"], expr["reactants"]):\n', 'new': '        for sname in ode_modifier:\n            expr = ode_modifier[sname]\n            spec = Species(sname, **species_kwargs)\n            sidx = species.index(spec)\n            for fact, dep in zip(expr["factors"], expr["reactants"]):\n'},
+    {'name': 'rate-modifier-walked-by-key', 'file': T, 'old': '            for key, value in rate_modifier.items():\n                if key == reac.idxfromfile:\n', 'new': '            for key in rate_modifier:\n                value = rate_modifier[key]\n                if key == reac.idxfromfile:\n'},
 ]
 
 
